@@ -144,32 +144,36 @@ _PROG = {}
 
 
 def _error_code(call):
-    """ErrorCode variant used to build the argument of into_error_response (through local lets and helper fns)."""
+    """ErrorCode variant(s) used to build the argument of into_error_response (through local lets and helper fns); a conditional
+    argument (`if is_initialize { InvalidRequest } else { ServerNotInitialized }`) yields both, joined by `|`."""
     prog, body = _PROG.get("prog"), _PROG.get("body")
     roots = list(call.get("args") or [])
-    seen = 0
-    while roots and seen < 6:
-        seen += 1
+    found = set()
+    seen_bodies = set()
+    rounds = 0
+    while roots and rounds < 6:
+        rounds += 1
         nxt = []
         for r in roots:
-            found = sorted(set(last(p["res"].get("ctor_of", "")) for p in hir.nodes(r, "Path")
-                               if p["res"].get("ctor_of", "").startswith("lsp4spl::error::ErrorCode::")))
-            if found:
-                # a conditional argument (`if is_initialize { InvalidRequest } else { ServerNotInitialized }`) yields both
-                return "|".join(found)
             for p in hir.nodes(r, "Path"):
+                co = p["res"].get("ctor_of", "")
+                if co.startswith("lsp4spl::error::ErrorCode::"):
+                    found.add(last(co))
                 if p["res"].get("k") == "Local" and body is not None:
                     for l in hir.nodes(body["body"], "Let"):
                         if l.get("init") is not None and any(bd["id"] == p["res"]["id"] for bd in hir.pat_bindings(l["pat"])):
-                            nxt.append(l["init"])
+                            if id(l) not in seen_bodies:
+                                seen_bodies.add(id(l))
+                                nxt.append(l["init"])
             if prog is not None:
                 for cl in hir.nodes(r):
                     if cl.get("k") in ("Call", "MethodCall"):
                         hb = hir.local_callee_body(prog, cl)
-                        if hb is not None:
+                        if hb is not None and hb["p"] not in seen_bodies and hb["p"].startswith("lsp4spl::server"):
+                            seen_bodies.add(hb["p"])
                             nxt.append(hb["body"])
         roots = nxt
-    return None
+    return "|".join(sorted(found)) if found else None
 
 
 def _classify_factory(c):
@@ -355,14 +359,18 @@ def rule_lifecycle(prog):
 
                     for iff in hir.nodes(rarm["body"], "If"):
                         if names_initialize(iff["cond"]):
-                            th = set(last(p_["res"].get("ctor_of", "")) for p_ in hir.nodes(iff["then"], "Path") if "ErrorCode::" in p_["res"].get("ctor_of", ""))
-                            el = set(last(p_["res"].get("ctor_of", "")) for p_ in hir.nodes(iff.get("else") or {}, "Path") if "ErrorCode::" in p_["res"].get("ctor_of", ""))
+                            # (a branch may build its error through a local helper)
+                            th = set(last(p_["res"].get("ctor_of", "")) for p_ in hir.nodes_deep(prog, iff["then"], 2, crate=c)
+                                     if p_.get("k") == "Path" and "ErrorCode::" in p_["res"].get("ctor_of", ""))
+                            el = set(last(p_["res"].get("ctor_of", "")) for p_ in hir.nodes_deep(prog, iff.get("else") or {}, 2, crate=c)
+                                     if p_.get("k") == "Path" and "ErrorCode::" in p_["res"].get("ctor_of", ""))
                             cond_ok = th == {"InvalidRequest"} and el == {"ServerNotInitialized"}
                     for m_ in hir.nodes(rarm["body"], "Match"):
                         for a_ in m_["arms"]:
                             pc_ = _pat_const(a_["pat"])
                             if pc_ and method_of(c, pc_) == "Initialize":
-                                th = set(last(p_["res"].get("ctor_of", "")) for p_ in hir.nodes(a_["body"], "Path") if "ErrorCode::" in p_["res"].get("ctor_of", ""))
+                                th = set(last(p_["res"].get("ctor_of", "")) for p_ in hir.nodes_deep(prog, a_["body"], 2, crate=c)
+                                         if p_.get("k") == "Path" and "ErrorCode::" in p_["res"].get("ctor_of", ""))
                                 if th == {"InvalidRequest"}:
                                     cond_ok = True
                 out.add(item, "before `initialized`: a second initialize is rejected with InvalidRequest, other requests with ServerNotInitialized",
